@@ -163,7 +163,9 @@ Record parser := { p_k : nat; p_pending : option (list (str * Z)); p_tab : table
 
 Inductive answer :=
 | Ans (o : option hit)
-| Raised.
+| Raised
+| Items (d : list (str * Z))      (* parser[alias]: the exact table (None and {} are identified with []) *)
+| Counts (n m : nat).             (* getTargetCount(alias) *)
 
 (* __init__ for an alias that is not lazily loaded: parse; expand only "if hammingDistanceExpansion > 0" *)
 Definition eager_tables (k : nat) (lines : list (str * Z)) : res :=
@@ -201,6 +203,51 @@ Fixpoint answers (p : parser) (qs : list str) : list answer :=
   | [] => []
   | q :: qs' => let '(p', a) := get p q in a :: answers p' qs'
   end.
+
+(* The public operations of BarcodeParser on one alias that read its tables:
+     OLookup q     getIndexCorrectedBarcodeAndHammingDistance(q, alias)     loads a pending alias
+     OGetItem      parser[alias]  (__getitem__)                             loads a pending alias
+     OTargetCount  getTargetCount(alias)                                    does NOT load (a pending alias
+                                                                            reports (0, 0)); no state change
+   (getBarcodeMapping() and list() read self.barcodes without loading, like getTargetCount; addBarcode /
+   expand / parse_barcode_file are the mutators modelled above; there is no __contains__.) *)
+Inductive op :=
+| OLookup (q : str)
+| OGetItem
+| OTargetCount.
+
+(* __getitem__: "if alias in self.pending_files: self.parse_pending_barcode_file_of_alias(alias)"
+   (parse + expand(self.hammingDistanceExpansion) + delete the pending entry), then self.barcodes.get(alias) *)
+Definition getitem (p : parser) : parser * answer :=
+  match p_pending p with
+  | None => (p, Items (bcs (p_tab p)))
+  | Some lines =>
+      match expand (p_k p) (load_into (p_tab p) lines) with
+      | Ok t' => ({| p_k := p_k p; p_pending := None; p_tab := t' |}, Items (bcs t'))
+      | _ => (p, Raised)
+      end
+  end.
+
+Definition target_count (p : parser) : parser * answer :=
+  (p, Counts (length (bcs (p_tab p))) (length (ext (p_tab p)))).
+
+Definition step (p : parser) (o : op) : parser * answer :=
+  match o with
+  | OLookup q => get p q
+  | OGetItem => getitem p
+  | OTargetCount => target_count p
+  end.
+
+Fixpoint run (p : parser) (ops : list op) : list answer :=
+  match ops with
+  | [] => []
+  | o :: ops' => let '(p', a) := step p o in a :: run p' ops'
+  end.
+
+(* getTargetCount is the one observation that tells a pending alias from a loaded one; it is erased when
+   lazy and eager histories are compared (it never changes the state) *)
+Definition mask (a : answer) : answer :=
+  match a with Counts _ _ => Counts 0 0 | _ => a end.
 
 (* ---------------------------------------------------------------- boolean specification *)
 Definition in_alphabet (s : str) : bool := forallb (fun c => existsb (Z.eqb c) alphabet) s.
@@ -250,14 +297,25 @@ Definition enc_answer (a : answer) : Val :=
   match a with
   | Ans o => ofOpt enc_hit o
   | Raised => VL [VZ (-1)]
+  | Items d => VL [VZ (-2); VL (map (fun e => VL [ofZs (fst e); VZ (snd e)]) d)]
+  | Counts n m => VL [VZ (-3); VZ (Z.of_nat n); VZ (Z.of_nat m)]
   end.
+
+(* [0; q] lookup, [1] parser[alias], [2] getTargetCount *)
+Definition dec_op (v : Val) : op :=
+  match getZ (nthV 0 v) with
+  | 0 => OLookup (getZs (nthV 1 v))
+  | 1 => OGetItem
+  | _ => OTargetCount
+  end%Z.
 
 (* input: [lines; k; queries; lazy]
    mode 0: answers of the parser (eager or lazy) to the query sequence
    mode 1: [wf_lines; equal_length; nodup_lines; [in_alphabet q ...]]
    mode 2: input = [[lines; k; queries; lazy]; outputs]  ->  [specb ... per query]
    mode 3: input = [s; n] -> circle alphabet s n (model order)
-   mode 4: input = [lines; k] -> the tables after eager loading (exact, extended) *)
+   mode 4: input = [lines; k] -> the tables after eager loading (exact, extended)
+   mode 5: input = [lines; k; ops; lazy] -> answers of the parser to the operation history *)
 Definition run_C03 (mode : Z) (v : Val) : Val :=
   match mode with
   | 0 => let lines := dec_lines (nthV 0 v) in
@@ -284,5 +342,14 @@ Definition run_C03 (mode : Z) (v : Val) : Val :=
                        VL (map (fun e => VL [ofZs (fst e); enc_hit (snd e)]) (ext t))]
          | _ => VL [VZ (-1)]
          end
+  | 5 => let lines := dec_lines (nthV 0 v) in
+         let k := Z.to_nat (getZ (nthV 1 v)) in
+         let ops := map dec_op (getL (nthV 2 v)) in
+         if getB (nthV 3 v)
+         then VL (map enc_answer (run (lazy_init k lines) ops))
+         else match eager_init k lines with
+              | Some p => VL (map enc_answer (run p ops))
+              | None => VL [VZ (-1)]
+              end
   | _ => bad
   end.
